@@ -721,6 +721,28 @@ class Renderer:
             return "%s -> %s%s" % (args[0], n["f"]["n"], (" " + rest) if rest else "")
         return "%s %s" % (n["f"]["n"], ", ".join(args))
 
+    def _ml_elems(self, xs, depth, render, trailing):
+        """Elements of a bracketed sequence, one per line at depth + 1.  An element `name.method arg` may be written as a call
+        chain broken over two lines with the call without parentheses: inside brackets such a call takes one argument and the
+        comma after it belongs to the brackets, so the next element may follow on the same line."""
+        pad1, pad2 = self.ind * (depth + 1), self.ind * (depth + 2)
+        out, i = [], 0
+        while i < len(xs):
+            x = xs[i]
+            last = lambda: i == len(xs) - 1
+            if (self.L.chains and x["k"] == "mcall" and x["c"]["k"] == "id" and len(x["args"]) == 1
+                    and self._simple_free_arg(x["args"][0]) and self.L.pick(2, 0.5) == 0):
+                line = pad2 + ".%s %s" % (x["m"], self.arg(x["args"][0]))
+                if i + 1 < len(xs):
+                    line += ", " + render(xs[i + 1])
+                    i += 1
+                out.append("\n" + CONT + pad1 + x["c"]["n"])
+                out.append("\n" + CONT + line + ("," if trailing or not last() else ""))
+            else:
+                out.append("\n" + CONT + pad1 + render(x) + ("," if trailing or not last() else ""))
+            i += 1
+        return "".join(out)
+
     def expr_ml(self, n, depth, force=False):
         """Render the top node of a simple statement, possibly over several lines (guide: arguments, lists and
         binary expressions may be broken across indented lines). Continuation lines carry the marker CONT."""
@@ -775,6 +797,8 @@ class Renderer:
             args = [self.arg(a) for a in n["args"]]
             style = self.L.pick(3, 0.34)
             if style == 0:
+                if all(a["k"] != "spread" for a in n["args"]):
+                    return head + "(" + self._ml_elems(n["args"], depth, self.arg, False) + "\n" + CONT + pad0 + ")"
                 body = "".join("\n" + CONT + pad1 + a + ("," if i < len(args) - 1 else "") for i, a in enumerate(args))
                 return head + "(" + body + "\n" + CONT + pad0 + ")"
             if style == 1 and len(args) >= 2:
@@ -788,8 +812,7 @@ class Renderer:
                 return "%s %s\n%s%s%s" % (a, n["op"], CONT, pad1, b)
             return "%s\n%s%s%s %s" % (a, CONT, pad1, n["op"], b)
         if k == "list" and n["xs"]:
-            xs = [self.paren(x) for x in n["xs"]]
-            return "[" + "".join("\n" + CONT + pad1 + x + "," for x in xs) + "\n" + CONT + pad0 + "]"
+            return "[" + self._ml_elems(n["xs"], depth, self.paren, True) + "\n" + CONT + pad0 + "]"
         return self.expr(n)
 
     def arm(self, head, body, depth):
